@@ -161,8 +161,19 @@ type Node struct {
 	values []RecvValue
 	nvals  atomic.Int64
 	dis    []directive.Instance
+	disDir []int       // scenario directive index of dis[k]
+	merged map[int]int // request index -> earlier request whose bus directive it was merged onto
 	refs   []directive.Reference
 	idle   []atomic.Bool
+}
+
+// MergedWith reports the earlier request onto whose bus directive request di
+// was de-duplicated by the bus (ok = false: it has a directive of its own).
+func (n *Node) MergedWith(di int) (int, bool) {
+	n.mu.Lock()
+	defer n.mu.Unlock()
+	o, ok := n.merged[di]
+	return o, ok
 }
 
 // Values returns the values received so far (arrival order).
@@ -357,14 +368,29 @@ func (t *TwoNode) addDirective(i, di int) string {
 		return "AddDirective: " + err.Error()
 	}
 	n.mu.Lock()
-	for _, o := range n.dis {
+	for k, o := range n.dis {
 		if o == inst {
-			n.mu.Unlock()
-			ref.Release()
-			return "two directive specs were merged into one instance: " + spec.String()
+			// The bus de-duplicated this request onto the directive of an earlier
+			// request. The harness-side request keeps its own reference + handler
+			// and is JUDGED like any other by what it receives: its ground truth is
+			// its own (protocol id, context, constraints). The only abstention is
+			// the documented one (property C37): two requests that differ in nothing
+			// but the transport constraint, on a tree whose IsEquivalent ignores it.
+			other := t.Scen.Dirs[i][n.disDir[k]]
+			if other.P == spec.P && other.C == spec.C && other.Peer == spec.Peer && other.Tpt != spec.Tpt {
+				n.mu.Unlock()
+				ref.Release()
+				return "two directive specs that differ only in the transport constraint were merged into one instance (C37): " + spec.String()
+			}
+			if n.merged == nil {
+				n.merged = map[int]int{}
+			}
+			n.merged[di] = n.disDir[k]
+			break
 		}
 	}
 	n.dis = append(n.dis, inst)
+	n.disDir = append(n.disDir, di)
 	n.refs = append(n.refs, ref)
 	n.mu.Unlock()
 	inst.AddIdleCallback(func(isIdle bool, _ []error) { n.idle[di].Store(isIdle) })
